@@ -122,7 +122,7 @@ def same(a, b):
     return type(a) is type(b) and a == b
 
 
-POSITIONS = ['print', 'assign', 'register', 'argument', 'if', 'while', 'count', 'printf']
+POSITIONS = ['print', 'assign', 'register', 'argument', 'if', 'while', 'count', 'printf', 'bound']
 
 
 def position_script(pos, tree):
@@ -152,7 +152,13 @@ def position_script(pos, tree):
                 ('repeat', ('count', rv), [('assign', 'n', ('expr', ('bin', '+', ('var', 'n'), ('num', 1))))]),
                 ('print', ('var', 'n'))], 'count'
     if pos == 'bound':
-        return [('repeat', ('range', 'i', ('num', 0), rv), []), ('print', ('var', 'i'))], 'ignore'
+        # the loop's own index variable is one of the expression's operands (x, 3 before the loop):
+        # the bound is evaluated with the value x has BEFORE the loop, as the same expression
+        # would be in an assignment placed there
+        return [('assign', 'n', ('num', 0)),
+                ('repeat', ('range', 'x', ('num', 0), rv),
+                 [('assign', 'n', ('expr', ('bin', '+', ('var', 'n'), ('num', 1))))]),
+                ('print', ('var', 'n'))], 'bound'
     raise ValueError(pos)
 
 
@@ -179,6 +185,8 @@ def main():
         if pos in ('count', 'bound') and (isinstance(want, bool) or not isinstance(want, (int, float))
                                           or abs(want) > 50):
             pos = 'print'
+        if pos == 'bound' and not isinstance(want, int):
+            pos = 'assign'
         body, mode = position_script(pos, tree)
         if mode == 'ignore':
             pos, (body, mode) = 'print', position_script('print', tree)
@@ -211,6 +219,8 @@ def main():
             ok = got == (1 if c.want else 0)
         elif c.mode == 'count':
             ok = got == max(0, math.ceil(c.want))
+        elif c.mode == 'bound':
+            ok = got == abs(c.want) + 1
         if not ok:
             stats['value_mismatch'] += 1
             chk.violation('expression-value-differs-from-documented-grammar',
